@@ -1518,5 +1518,17 @@ seed("c16-limiter-lf-first-in-chunk", "C16", "R-linelimit-threshold", "lengthlim
 			r.curLineLength = 0
 		}""", "an LF that is the first octet counted on a line does not reset the count")
 
+seed("c17-client-reply-line-limit-lowered", "C17", "R-client-parse", "client.go",
+"""		LineLimit: 2000,""", """		LineLimit: 2 * 512,""", "the client refuses verdict lines the server sends intact")
+seed("c01-data-handler-lowers-line-limit", "C01", "R-linelimit-owners", "conn.go",
+"""	r := newDataReader(c)
+	code, enhancedCode, msg := dataErrorToStatus(c.Session().Data(r))""", """	c.lineLimitReader.LineLimit = 1000
+	defer func() { c.lineLimitReader.LineLimit = c.server.MaxLineLength }()
+	r := newDataReader(c)
+	code, enhancedCode, msg := dataErrorToStatus(c.Session().Data(r))""", "body lines capped at 1000 octets whatever the configured limit")
+seed("c06-bdat-limit-remaining-budget-off-by-one", "C06", "R-bdat-limit", "conn.go",
+"""	if c.server.MaxMessageBytes != 0 && c.bytesReceived+int64(size) > c.server.MaxMessageBytes {""",
+"""	if limit := c.server.MaxMessageBytes; limit != 0 && int64(size) >= limit-c.bytesReceived {""", "remaining-budget form with >=: the chunk that fills the budget exactly is refused")
+
 json.dump(S, open(os.path.join(os.path.dirname(os.path.abspath(__file__)), "bank.json"), "w"), indent=1)
 print(len(S), "seeds")
